@@ -71,6 +71,53 @@ Proof.
   rewrite (gap_fmt_rel w _ _ _ _ _ Hr), (ref_body_equiv w _ _ _ Hb). reflexivity.
 Qed.
 
+(* ------------------------------------------------------------------ ref_fmt on formatted code *)
+Lemma gap_fmt_idem w a e d r r' : flat_map tcode r' = gap_fmt w a e d r -> gap_fmt w a e d r' = gap_fmt w a e d r.
+Proof.
+  intros H. unfold gap_fmt at 1. rewrite run_code_flat_map, H. unfold gap_fmt. apply fmt_run_idempotent_all.
+Qed.
+
+Lemma spelled_head G st l l' : spelled_body G st l l' -> is_nilb l' = is_nilb l /\ next_depth st l' = next_depth st l.
+Proof.
+  destruct l as [|[t r] l], l' as [|[t' r'] l']; cbn [spelled_body]; intros H; try contradiction; [split; reflexivity|].
+  destruct H as (-> & _). split; reflexivity.
+Qed.
+
+Lemma ref_body_idem w : forall l l' st, spelled_body (gap_fmt w) st l l' ->
+  ref_body (gap_fmt w) st l' = ref_body (gap_fmt w) st l.
+Proof.
+  induction l as [|[t r] l IH]; intros [|[t' r'] l'] st H; cbn [spelled_body] in H; try contradiction; [reflexivity|].
+  cbv zeta in H. destruct H as (-> & Hr & Hb). cbn [ref_body]. cbv zeta.
+  destruct (spelled_head _ (tok_depth_after st t) _ _ Hb) as [E1 E2]. rewrite E1, E2.
+  rewrite (gap_fmt_idem w _ _ _ _ _ Hr), (IH l' _ Hb). reflexivity.
+Qed.
+
+(* the text of a token list, along segs *)
+Fixpoint body_text (l : list (token * list token)) : list Z :=
+  match l with [] => [] | (t, r) :: l' => tcode t ++ flat_map tcode r ++ body_text l' end.
+
+Lemma segs_text ts : flat_map tcode ts = flat_map tcode (fst (segs ts)) ++ body_text (snd (segs ts)).
+Proof.
+  induction ts as [|t r IH]; [reflexivity|]. cbn [segs flat_map]. destruct (segs r) as [r0 l]. cbn [fst snd] in IH.
+  destruct (is_trivia t); cbn [fst snd flat_map body_text app]; rewrite IH; [rewrite app_assoc|]; reflexivity.
+Qed.
+
+Lemma body_text_spelled w : forall l l' st, spelled_body (gap_fmt w) st l l' -> body_text l' = ref_body (gap_fmt w) st l.
+Proof.
+  induction l as [|[t r] l IH]; intros [|[t' r'] l'] st H; cbn [spelled_body] in H; try contradiction; [reflexivity|].
+  cbv zeta in H. destruct H as (-> & Hr & Hb). cbn [ref_body body_text]. cbv zeta. rewrite Hr, (IH l' _ Hb). reflexivity.
+Qed.
+
+(* a token list spelled as the reference formatting of ts: its text IS that formatting, and formatting it again gives the same *)
+Theorem ref_fmt_idem w ts ts' : formatted_as (gap_fmt w) ts ts' ->
+  flat_map tcode ts' = ref_fmt (gap_fmt w) ts /\ ref_fmt (gap_fmt w) ts' = ref_fmt (gap_fmt w) ts.
+Proof.
+  unfold formatted_as, ref_fmt. rewrite (segs_text ts'). destruct (segs ts) as [a l], (segs ts') as [a' l']. cbn [fst snd].
+  intros [Ha Hb]. destruct (spelled_head _ (mk_dstate 0 0) _ _ Hb) as [E1 E2]. split.
+  - rewrite Ha, (body_text_spelled w _ _ _ Hb). reflexivity.
+  - rewrite E1, E2, (gap_fmt_idem w _ _ _ _ _ Ha), (ref_body_idem w _ _ _ Hb). reflexivity.
+Qed.
+
 (* ------------------------------------------------------------------ runs whose text does not depend on the counter *)
 Lemma fmt_run_depth_irrelevant a e w d1 d2 r : noNL (canon_ws r) ->
   fmt_run (mk_fcfg a e w d1) r = fmt_run (mk_fcfg a e w d2) r.
@@ -270,4 +317,16 @@ Proof.
   intros P1 C1 W1 T1 G1 P2 C2 W2 T2 G2 Heq.
   rewrite (program_ref_fmt ts1 w root1 e1 P1 C1 W1 T1 G1), (program_ref_fmt ts2 w root2 e2 P2 C2 W2 T2 G2).
   rewrite (ref_fmt_reindent w ts1 ts2 Heq). reflexivity.
+Qed.
+
+(* formatting already formatted code changes nothing (token level): a token list inside the domain that is spelled as the reference
+   formatting of some token list is written back byte for byte *)
+Theorem program_idempotent w ts ts' root' e' :
+  lua_parse ts' = Ok (root', e') -> consumed ts' e' = true -> writable ts' root' = true ->
+  no_trailing_sep root' = true -> gaps_tidy ts' = true ->
+  formatted_as (gap_fmt w) ts ts' ->
+  writer_text (fmt_spaces w) ts' (view root') = Ok (flat_map tcode ts').
+Proof.
+  intros P C W T G Hf. rewrite (program_ref_fmt ts' w root' e' P C W T G). destruct (ref_fmt_idem w ts ts' Hf) as [H1 H2].
+  rewrite H2, H1. reflexivity.
 Qed.
